@@ -33,7 +33,8 @@ RULE = (
 ASSUMPTIONS = [
     "exp(-i omega t) convention of the docstrings",
     "pole parameters from finite alphabets; dt from {2e-17 s, VERIF_SEED generic}",
-    "identities compared at 1e-9 relative; zero padding and rejected inputs exactly",
+    "identities compared at 1e-9 relative plus the float64 conditioning of the stored coefficients (32 eps * 2D/|denominator|); zero padding and rejected inputs exactly",
+    "root location decided by the Jury criterion on (c1, c2) with 1e-12 slack (roots on the unit circle are not outside)",
 ]
 TOL = 1e-9
 
@@ -254,10 +255,14 @@ def _part_chi(case):
             # --- roots of z^2 - c1 z - c2 on every axis within the precondition
             for a in range(3):
                 if w0a[a] * dt < 2.0 and gaa[a] >= 0:
-                    r = np.roots([1.0, -c1[0, a], -c2[0, a]])
+                    # Jury / Schur-Cohn criterion for p(z) = z^2 - c1 z - c2 with real coefficients: both roots lie in the
+                    # closed unit disc iff |p(0)| <= 1, p(1) >= 0 and p(-1) >= 0. (Numerical root finding is useless next
+                    # to the double root z = 1 of weakly damped Drude poles: its error is ~sqrt(eps).)
+                    a1, a0 = -float(c1[0, a]), -float(c2[0, a])
                     evals += 1
-                    if float(np.max(np.abs(r))) > 1.0 + 1e-12:
-                        fails.append(dict(sig=f"{kind}:{el.form}:recurrence-root-outside-unit-circle", detail=dict(el.desc(), axis=a, roots=[complex(z) for z in r], dt=dt)))
+                    if abs(a0) > 1.0 + 1e-12 or 1.0 + a1 + a0 < -1e-12 or 1.0 - a1 + a0 < -1e-12:
+                        r = np.roots([1.0, a1, a0])
+                        fails.append(dict(sig=f"{kind}:{el.form}:recurrence-root-outside-unit-circle", detail=dict(el.desc(), axis=a, c1=-a1, c2=-a0, roots=[complex(z) for z in r], dt=dt)))
             # --- susceptibility identity at every frequency
             for wdt in WDT:
                 w = wdt / dt
@@ -270,9 +275,18 @@ def _part_chi(case):
                 evals += 1
                 gt = got.reshape(3, 3) if got.shape[0] == 9 else np.diag(got)
                 scale = float(np.max(np.abs(ref)))
+                # float64 coefficients encode omega_0^2 dt^2 as 2 - c1*D: an absolute error ~eps*2*D, amplified by the
+                # cancellation in the denominator. Allow that much on top of the 1e-9 identity tolerance.
+                cond = 0.0
+                for a in range(3):
+                    den = abs((w0a[a] * dt) ** 2 - wdt * wdt - 1j * gaa[a] * dt * wdt)
+                    if den > 0:
+                        cond = max(cond, 2.0 * (1.0 + 0.5 * gaa[a] * dt) / den)
+                slack = 32 * np.finfo(np.float64).eps * cond
                 if scale > 0:
                     nontriv += 1
                     ok, d = _close(gt, ref, scale)
+                    ok = ok or d <= TOL + slack
                 else:
                     ok, d = bool(np.all(gt == 0)), float(np.max(np.abs(gt)))
                 oc["chi-nonzero" if scale > 0 else "chi-zero"] = oc.get("chi-nonzero" if scale > 0 else "chi-zero", 0) + 1
